@@ -490,8 +490,8 @@ func (nd *hnode) dumpLast(c *Case) {
 		}
 		pend = append(pend, fmt.Sprintf("%d:%d", p.Index, d))
 	}
-	c.Op(fmt.Sprintf("HG dump %d last", nd.id), fmt.Sprintf("O last lastRound=%d lcr=%s undet=%d pending=%s lastBlock=%d topo=%d",
-		nd.store.LastRound(), fo(nd.h.LastConsensusRound), len(nd.h.UndeterminedEvents), listOrDash(pend), nd.store.LastBlockIndex(), nd.topoCount()))
+	c.Op(fmt.Sprintf("HG dump %d last", nd.id), fmt.Sprintf("O last lastRound=%d lcr=%s undet=%d pending=%s lastBlock=%d",
+		nd.store.LastRound(), fo(nd.h.LastConsensusRound), len(nd.h.UndeterminedEvents), listOrDash(pend), nd.store.LastBlockIndex()))
 }
 
 func (nd *hnode) topoCount() int { return len(nd.order) }
